@@ -40,7 +40,7 @@ def exec_case(case):
     for ev in case["events"]:
         gen, p = ev["gen"], dict(ev["p"])
         e = {"op": "gen", "gen": gen, "p": p, "pcls": ev.get("pcls", ""), "exc": "", "cls": "", "nv": 0, "F": [], "ncells": 0, "ne": 0, "E": [],
-             "m": [], "pos": [], "box": [], "fattrs": []}
+             "m": [], "pos": [], "box": [], "fattrs": [], "derr": 0}
         p.setdefault("volume", 0)
         p.setdefault("triangulate", 0)
         p.setdefault("colored", 0)
@@ -136,6 +136,13 @@ def exec_case(case):
                 e["pos"] = _ipos(m)
             else:
                 raise KeyError(gen)
+            if gen in ("ring", "flat_ring"):
+                # the angle defect realised at the centre (2 pi - N * the angle under which a rim segment is seen), in micro-radians off the request
+                c0, a, b = (np.asarray(m.vertices[i], dtype=float) for i in (0, 1, 2))
+                u, w = a - c0, b - c0
+                ang = math.atan2(float(np.linalg.norm(np.cross(u, w))), float(np.dot(u, w)))
+                target = max(min(float(p["defect"]), 2 * math.pi - 0.01), 0.)
+                e["derr"] = int(math.ceil(abs((2 * math.pi - p["N"] * ang) - target) * 1e6))
             e["cls"] = type(m).__name__
             e["nv"] = len(m.vertices)
             e["F"] = [[int(v) for v in f] for f in m.faces] if hasattr(m, "faces") else []
@@ -203,8 +210,9 @@ def _params(rng, thorough):
     for n in (2, 3, 4, 5):
         add("unit_triangle", {"n": n, "uvs": n % 2})
     for N, op, cov in itertools.product([3, 4, 6], (0, 1), (1, 2)):
-        add("ring", {"N": N, "defect": rng.choice([0.0, 0.5, 1.5]), "open": op, "cover": cov, "want_m": [1, 1]}, ("open" if op else "closed") + "/cover%d" % cov)
-        add("flat_ring", {"N": N, "defect": rng.choice([0.0, 0.5, 1.5]), "cover": cov, "want_m": [1, 1]}, "cover%d" % cov)
+        for dfc in ([0.0, 0.5, 1.5, 3.0, 5.9, 6.1, 6.25, 6.27, 7.0] if cov == 1 else [rng.choice([0.0, 0.5, 1.5])]):
+            add("ring", {"N": N, "defect": dfc, "open": op, "cover": cov, "want_m": [1, 1]}, ("open" if op else "closed") + "/cover%d" % cov)
+            add("flat_ring", {"N": N, "defect": dfc, "cover": cov, "want_m": [1, 1]}, "cover%d" % cov)
     for src, sv, sf, chi in (("cube", 8, 6, 2), ("icosahedron", 12, 20, 2), ("torus", 12, 24, 0), ("octahedron", 6, 8, 2)):
         add("dual_mesh", {"src": src, "srcV": sv, "srcF": sf, "srcChi": chi}, src)
     for k, n in itertools.product((1, 2), (0, 1)):
